@@ -532,6 +532,7 @@ func (p *Prog) buildVC(fn *ssa.Function, opts VerifyOpts) (*VC, *Node, int) {
 		}
 	}
 	vc.errTextAxioms()
+	vc.suffixAxioms()
 	vc.instantiateLemmas()
 	if os.Getenv("KVC_DEBUG") != "" {
 		for k, m := range loopMods {
